@@ -5,7 +5,7 @@
 SEED=$(readlink -f "$1"); shift
 MUT=/tmp/mut
 [ -d $MUT ] || git -C /repo worktree add -q --detach $MUT HEAD
-cd $MUT && git checkout -q --detach main && git checkout -q -- . && git clean -fdq
+cd $MUT && git checkout -q --detach ${BASE:-main} && git checkout -q -- . && git clean -fdq
 mkdir -p $MUT/_seed/x && cp $SEED/demo.py $MUT/_seed/x/demo.py
 /venv/bin/python _seed/x/demo.py >/dev/null 2>&1; echo "demo pristine exit=$? (want 0)"
 git apply $SEED/patch.diff || { echo "PATCH DOES NOT APPLY"; exit 3; }
